@@ -151,9 +151,9 @@ time_t vf_time(time_t *t) {
 	return v;
 }
 int vf_clock_gettime(clockid_t c, struct timespec *ts) {
-	(void) c;
 	uint64_t n = vf_now_us();
-	ts->tv_sec = (time_t) (1700000000ULL + n / 1000000ULL);
+	uint64_t base = (c == CLOCK_REALTIME || c == CLOCK_REALTIME_COARSE || c == CLOCK_TAI) ? 1700000000ULL : 12300ULL;
+	ts->tv_sec = (time_t) (base + n / 1000000ULL);
 	ts->tv_nsec = (long) (n % 1000000ULL) * 1000;
 	return 0;
 }
